@@ -566,6 +566,23 @@ def loading_context(P, R, rule='C20.MPT.5'):
     R.floor(rule, 1)
 
 
+def one_key(P, R, rule='C20.MPT.7'):
+    """"Constructed once" rests on the test "is a module of this name already loaded?" being asked about the very name
+    that is then loaded: between the lookup that answers it and the call that makes (or finds) the module's record, the
+    name is not replaced by another spelling - otherwise the record of a module that is already constructed comes back
+    and its constructor runs again."""
+    ld = P.need_fn('module_load')
+    key = ld.params[0]
+    looks = [s for s in ld.calls('set_find') if any(is_var(x, key) for a in s.ev['args'] for x in walk(a))]
+    gets = [s for s in ld.calls('module_get') if s.ev['args'] and any(is_var(x, key) for x in walk(s.ev['args'][0]))]
+    if not looks or not gets:
+        raise AnalysisBroken('module_load no longer checks for and creates the record by the same parameter')
+    writes = [t for t in ld.stores() if t.ev['k'] == 'store' and is_var(t.ev.get('lhs'), key)]
+    R.ob(rule, not writes, writes[0] if writes else looks[0], 'the name looked up as "already loaded" is the name the record is created under (the parameter is not re-assigned in module_load)', key='one-key',
+         detail=[t.loc for t in writes] or None)
+    R.floor(rule, 1)
+
+
 def reverse_list_removal(P, R, rule='C20.TAB.1'):
     """Unloading removes the module from each dependency's reverse list with an in-place filter: the entry that is
     tested against the name is the entry that is read and kept (same index as the source of the copy), not the slot
@@ -594,6 +611,29 @@ def reverse_list_removal(P, R, rule='C20.TAB.1'):
                             if x.get('k') == 'idx' and same(x['base'], rhs['base']) and t.ev['k'] == 'call':
                                 n += 1
                                 R.ob(rule, set(vars_in(x['index'])) == {r}, t, '%s: the entry compared with the name to remove (%s) is the one being read (%s), not the write slot' % (g.name, sx(x), sx(rhs)), key='filter-index:%s' % g.name)
+    # every entry equal to the name goes (a dependency recorded twice - by the declaration and again by the walk that
+    # starts at its dependent - is otherwise still "depended on" after its last dependent is gone): the scan that compares
+    # entries with the name is left only at the end of the list, whatever way the entries are then closed up
+    for c in mc.calls():
+        if not any(on_path(a, 'rdepends') for a in c.ev['args']):
+            continue
+        for g in P.callees(c, False):
+            def head(cnd):
+                from ..model import rel as _rel
+                r = _rel(cnd, True) if cnd is not None else None
+                return bool(r) and r[1] == '<' and (on_path(r[2], 'used') or is_var(r[2]))
+            cmp_loops = 0
+            for hd, body in rules.loops_of(g):
+                if not head(g.term_cond(hd)):
+                    continue
+                compares = any(t.ev['k'] == 'call' and t.ev.get('callee') in ('strcasecmp', 'strcmp') for x in body for t in g.block_sites(x)) or \
+                    any(isinstance(y, dict) and y.get('k') == 'callref' and y.get('callee') in ('strcasecmp', 'strcmp') for x in body | {hd} for y in (walk(g.term_cond(x)) if g.term_cond(x) is not None else ()))
+                if not compares:
+                    continue
+                cmp_loops += 1
+                exits = [e for x in body for e in g.out[x] if e.dst not in body and e.dst != hd]
+                n += 1
+                R.ob(rule, not exits, g, '%s compares every entry of the list with the name: the scan is left only at the end of the list%s' % (g.name, '' if not exits else ' (it stops at %s)' % exits[0].describe()), key='remove-all:%s' % g.name)
     R.floor(rule, 1, 'reverse-dependency removal filter')
 
 
@@ -605,6 +645,7 @@ def run(P, R, tier):
     both_directions(P, R)
     unload(P, R)
     reverse_list_removal(P, R)
+    one_key(P, R)
     loading_context(P, R)
     edge_forms(P, R)
     # every module of the registry is looked at when the walks are started: one that is already visited is skipped
